@@ -139,6 +139,8 @@ func gen(c *common.Ctx, spec []specCase, emit func(...string)) {
 	}
 	genLines(c, emit)
 	genEmph(c, emit)
+	genBlk(c, g, emit)
+	genEmptyItemDocs(c, emit)
 	// arbitrary bytes
 	n = c.Scale(3000, 40000)
 	alpha := []string{"*", "_", "`", "[", "]", "(", ")", "<", ">", "!", "\\", "&", "#", ";", "-", "+", ">", "1.", "\n", "\n", " ", " ", "\t", "\r",
@@ -157,6 +159,7 @@ func gen(c *common.Ctx, spec []specCase, emit func(...string)) {
 			}
 		}
 		emit("fuzz", common.Hex(sb.String()))
+		emit("blk", common.Hex(sb.String()))
 	}
 	// pathological sizes: deep nesting and long delimiter runs must stay fast
 	for _, s := range []string{
@@ -165,6 +168,10 @@ func gen(c *common.Ctx, spec []specCase, emit func(...string)) {
 		strings.Repeat("<", 5000), strings.Repeat("![", 3000) + strings.Repeat("]()", 3000), strings.Repeat("a\n", 5000),
 		strings.Repeat("**a* ", 3000), strings.Repeat("*a** ", 3000), strings.Repeat("&", 5000), strings.Repeat("\\", 5001)} {
 		emit("fuzz", common.Hex(s))
+	}
+	for _, s := range []string{strings.Repeat("> ", 2000) + "a", strings.Repeat("- ", 2000) + "a\nb", strings.Repeat("a\n", 5000),
+		strings.Repeat("1. ", 500) + "a\n\n" + strings.Repeat("   ", 500) + "b", strings.Repeat("```\n", 3001), strings.Repeat("- a\n\n", 2000)} {
+		emit("blk", common.Hex(s))
 	}
 }
 
@@ -221,6 +228,8 @@ func impl(_ any, f []string) string {
 		return implLine(f[1] == "1", common.Unhex(f[2]))
 	case "emph":
 		return implEmph(common.Unhex(f[1]))
+	case "blk":
+		return implBlk(common.Unhex(f[1]))
 	}
 	return "bad-op"
 }
@@ -360,6 +369,12 @@ func oracle(_ any, f []string, out string) (string, string) {
 		if got := renderHTML(doc); strings.Contains(got, "<a ") {
 			return "title-without-separator", fmt.Sprintf("%q renders %q; a title must be separated from the destination by whitespace", doc, got)
 		}
+	case "blk":
+		// the container ops handed to a codec are well nested, whatever the input
+		// (C35_block_trace_balanced on the model)
+		if msg := unbalancedTrace(out); msg != "" {
+			return "block-trace-unbalanced", fmt.Sprintf("%q: %s", common.Unhex(f[1]), msg)
+		}
 	case "doc":
 		doc := common.Unhex(f[1])
 		if InSubset(doc) {
@@ -476,6 +491,8 @@ func tag(f []string, out string) string {
 		return "line" + f[1] + ":" + strings.Join(ks, ".")
 	case "emph":
 		return tagEmph(out)
+	case "blk":
+		return tagBlk(out)
 	}
 	return ""
 }
